@@ -276,10 +276,10 @@ class RandomVariables(CollectionsSequence, Immutable):
         eta_levels: Optional[VariabilityHierarchy] = None,
         epsilon_levels: Optional[VariabilityHierarchy] = None,
     ):
+        if isinstance(dists, Distribution):
+            dists = (dists,)
         if dists is None:
             dists = ()
-        elif isinstance(dists, Distribution):
-            dists = (dists,)
         else:
             dists = tuple(dists)
             names = set()
@@ -339,23 +339,21 @@ class RandomVariables(CollectionsSequence, Immutable):
                 raise ValueError(
                     "Level of added distribution is not available in any variability hierarchy"
                 )
-            return RandomVariables(self._dists + (other,), self._eta_levels, self._epsilon_levels)
+            return self.replace(dists=self._dists + (other,))
         elif isinstance(other, RandomVariables):
             if (
                 self._eta_levels != other._eta_levels
                 or self._epsilon_levels != other._epsilon_levels
             ):
                 raise ValueError("RandomVariables must have same variability hierarchies")
-            return RandomVariables(
-                self._dists + other._dists, self._eta_levels, self._epsilon_levels
-            )
+            return self.replace(dists=self._dists + other._dists)
         else:
             try:
                 dists = tuple(other)
             except TypeError:
                 raise TypeError(f'Type {type(other)} cannot be added to RandomVariables')
             else:
-                return RandomVariables(self._dists + dists, self._eta_levels, self._epsilon_levels)
+                return self.replace(dists=self._dists + dists)
 
     def __radd__(self, other: Union[Distribution, Sequence[Distribution]]) -> RandomVariables:
         if isinstance(other, Distribution):
@@ -363,14 +361,14 @@ class RandomVariables(CollectionsSequence, Immutable):
                 raise ValueError(
                     f"Level {other.level} of added distribution is not available in any variability hierarchy"
                 )
-            return RandomVariables((other,) + self._dists, self._eta_levels, self._epsilon_levels)
+            return self.replace(dists=(other,) + self._dists)
         else:
             try:
                 dists = tuple(other)
             except TypeError:
                 raise TypeError(f'Type {type(other)} cannot be added to RandomVariables')
             else:
-                return RandomVariables(dists + self._dists, self._eta_levels, self._epsilon_levels)
+                return self.replace(dists=dists + self._dists)
 
     def __len__(self):
         return len(self._dists)
